@@ -41,7 +41,7 @@ def run(res):
     lib.proof_stage(res, "C18.v", "Props.C18", PINNED)
     cov = res.coverage
     n_hist = 16 if quick else 120
-    n_store = 24 if quick else 160
+    n_store = 27 if quick else 180
     hist = lib.run_harness("keys", "hist", res.seed, n_hist, res.tier)
     store = lib.run_harness("keys", "store", res.seed, n_store, res.tier)
     kcases, scases = hist.get("CASE", []), store.get("CASE", [])
@@ -58,7 +58,7 @@ def run(res):
         mon.append(("store", m, scases[m["case"]] if m.get("case", -1) < len(scases) else {}))
     for kind, v, c in mon[:3]:
         if kind == "keys":
-            res.violation("channel keys depend on the history: " + v.get("what", ""),
+            res.violation("channel keys are not a stable function of (seed, style, id): " + v.get("what", ""),
                           {"domain": "keys-hist", "seed": res.seed, "violation": v,
                            "node_seed": c.get("seed"), "style": c.get("style"),
                            "channel_ids_world": c.get("world"), "histories": c.get("histories")})
@@ -101,8 +101,8 @@ def run(res):
                 "restarts, setups, random extra channels, re-creation and observations interleaved; one Coq case per "
                 "(seed, style, id) with the secret keys, keys_id, commitment seed and the secrets of one number in 0..5 "
                 "plus three boundary numbers (6..65536, 2^47, 2^48-1 …, random 48-bit); non-trivial = observed in >= 2 "
-                "orders and with released secrets.  keys-store: eight stream kinds over the real released secrets of a "
-                "real channel (descending, gaps, wrong secret, repeats/older, late start, malformed indices up to "
+                "orders and with released secrets.  keys-store: nine stream kinds over the real released secrets of a "
+                "real channel (descending, gaps, wrong secret, repeats/older, the current minimum again with another secret, late start, malformed indices up to "
                 "2^64-1, long descending, mixed) with get_secret queries around every index; non-trivial = both an "
                 "accepted and a refused secret, or >= 3 slots with found and not-found/panicking queries; distinct by "
                 "full case term",
